@@ -21,10 +21,22 @@ def commonprefix(paths):
     split = [i.split() for i in paths]
     lo, hi = min(split), max(split)
 
+    def make(bits, directory):
+        if paths[0].root == Root.absolute:
+            # The first component of an absolute path is its drive (or the
+            # empty string); with nothing else in common, the common prefix is
+            # that drive's root directory, or nothing at all.
+            if len(bits) == 0:
+                return None
+            elif len(bits) == 1 or bits[-1] == '':
+                bits = bits[:1] + ['']
+                directory = True
+        return cls(cls.sep.join(bits), paths[0].root, directory=directory)
+
     for i, bit in enumerate(lo):
         if bit != hi[i]:
-            return cls(cls.sep.join(lo[:i]), paths[0].root, directory=True)
-    return cls(cls.sep.join(lo), paths[0].root, directory=(lo != hi or not lo))
+            return make(lo[:i], True)
+    return make(lo, lo != hi or not lo)
 
 
 def uniquetrees(paths):
